@@ -6,7 +6,7 @@ HARNESSES = [
       cuts=['_ZN11xercesc_4_09ElemStack11expandStackEv'],
       cuts_everywhere=['_ZN11xercesc_4_013XMLStringPool9addOrFindEPKDs', '_ZNK11xercesc_4_013XMLStringPool5getIdEPKDs'],
       tus=['internal/ElemStack.cpp', 'util/XMLUni.cpp', 'util/XMLString.cpp', 'util/XMemory.cpp'],
-      defs={'quick': {'K': 4}, 'thorough': {'K': 6}}, mem_gb=20, unwind={'quick': 'K+2', 'thorough': 'K+2'}, timeout={'quick': 600, 'thorough': 1700}),
+      defs={'quick': {'K': 4}, 'thorough': {'K': 6}}, mem_gb=20, unwind_cap=300, unwind={'quick': 'K+2', 'thorough': 'K+2'}, timeout={'quick': 600, 'thorough': 1700}),
 ]
 LEVEL_TEXT = ('Bounded model checking of the real prefix->URI scoping structure: for ALL operation scripts of length <= K over addLevel/addPrefix/addGlobalPrefix/popTop with symbolic prefixes and URI ids, '
               'the real mapPrefixToURI returns exactly the binding of the nearest enclosing declaration (shadowing, re-declaration, un-declaration of the default namespace, xml/xmlns fixed, unknown prefixes).')
